@@ -52,6 +52,7 @@ def cases(ctx):
         pd = gen.random_dfa(rng, 5, total=False)
         if not thorough or ctx.mine(i):
             yield {'kind': 'single', 'D': d, 'P': pd}
+    yield {'kind': 'ring', 'n': 1500}        # reachability over a cycle of 1500 states (deeper than the default recursion limit); no model
     for i in range(300 if not thorough else 3000):
         Sig = rng.choice([['a', 'b'], ['a'], ['a', 'b', 'c']])
         ws = gen.all_words(Sig, 3)
@@ -62,6 +63,8 @@ def cases(ctx):
 
 
 def lean_requests(c):
+    if c['kind'] == 'ring':
+        return []
     if c['kind'] == 'pair':
         return [{'op': 'dfa_product', 'D1': c['D1'], 'D2': c['D2'], 'type': t} for t in PTYPES]
     if c['kind'] == 'single':
@@ -90,6 +93,28 @@ def cmp_auto(ctx, name, c, got, la, canon_obj, canon_spec, lang_bad):
 
 
 def judge(ctx, c, answers):
+    if c['kind'] == 'ring':
+        n = c['n']
+        Q = ['g%d' % i for i in range(n)] + ['dead', 'island']
+        delta = [['g%d' % i, 'a', 'g%d' % ((i + 1) % n)] for i in range(n)] + [['g%d' % i, 'b', 'dead'] for i in range(n)] + \
+                [['dead', x, 'dead'] for x in 'ab'] + [['island', x, 'g0'] for x in 'ab']
+        spec = {'Q': Q, 'Sigma': ['a', 'b'], 'delta': delta, 'q0': 'g0', 'F': ['g%d' % (n - 1), 'dead']}
+        D = enc.build_dfa(spec)
+        before = enc.canon_dfa(D)
+        g = call(DA.dfa_reachable_states, D, D.q0, limit=60)
+        if g.get('ok') is None or set(g['ok']) != set(Q) - {'island'}:
+            ctx.violation('reachable-states', {'case': c, 'impl': str(g)[:200]})
+        g = call(DA.dfa_remove_unreachable_states, D, limit=60)
+        if 'ok' not in g or set(g['ok'].Q) != set(Q) - {'island'} or not oracles.dfa_valid(g['ok']):
+            ctx.violation('remove-unreachable-states', {'case': c, 'impl': str(g)[:200]})
+        g = call(DA.dfa_no_extend, D, limit=60)
+        # every accepting state can be extended here (the ring returns to g<n-1>, dead loops on itself): nothing is left
+        if 'ok' not in g or set(g['ok'].F) != set():
+            ctx.violation('no-extend', {'case': c, 'impl': str(g)[:200] if 'ok' not in g else sorted(g['ok'].F)[:5]})
+        if enc.canon_dfa(D) != before:
+            ctx.violation('argument-mutated', {'case': c})
+        ctx.case(c, True)
+        return
     if c['kind'] == 'pair':
         D1, D2 = enc.build_dfa(c['D1']), enc.build_dfa(c['D2'])
         b1, b2 = enc.canon_dfa(D1), enc.canon_dfa(D2)
